@@ -1,5 +1,5 @@
 //@@ unit strs
-//@@ map k_mid__s\d  props=C07 kind=bounded enum=12
+//@@ map k_mid__s\d  props=C07 kind=bounded enum=12 bound=fixed_strings("","a","ab","e-acute","a+e-acute");positions_in{-1..5,254,255,256,32766,32767}
 // (not registered: CBMC aborts / times out on these harnesses here) map k_mid3__s\d  props=C07 kind=bounded enum=12,12 bound=fixed_strings("","a","ab","e-acute","a+e-acute");positions_and_lengths_in{-1,0,1,2,3,4,5,254,255,256,32766,32767}
 //@@ map k_left__s\d  props=C07 kind=bounded enum=12 bound=fixed_strings;lengths_in{-1..5,254,255,256,32766,32767}
 //@@ map k_right__s\d  props=C07 kind=bounded enum=12 bound=fixed_strings;lengths_in{-1..5,254,255,256,32766,32767}
